@@ -168,7 +168,12 @@ def _split_instruction_into_tokens(line: str) -> List[str]:
                 continue
             i += 1
             while i < len(line):
-                if line[i] == '"' and line[i - 1] != "\\":
+                if line[i] == "\\":
+                    # a backslash escapes the character after it, so the quote that follows an
+                    # escaped backslash does close the literal
+                    i += 2
+                    continue
+                if line[i] == '"':
                     fields.append(line[start : i + 1])
                     i += 1
                     start = i
